@@ -68,7 +68,7 @@ func compPlan(tier string) plan {
 }
 
 var plans = map[string]func(string) plan{
-	"C01": seqPlan, "C03": seqPlan, "C07": seqPlan, "C10": seqPlan, "C11": concPlan, "C12": seqPlan,
+	"C01": seqPlan, "C03": concPlan, "C07": seqPlan, "C10": seqPlan, "C11": concPlan, "C12": seqPlan,
 	"C13": seqPlan, "C19": seqPlan, "C20": concPlan, "C18": seqPlan,
 	"C02": concPlan, "C04": concPlan, "C05": concPlan, "C06": concPlan, "C08": concPlan, "C09": concPlan, "C14": concPlan,
 	"C15": compPlan, "C16": compPlan, "C17": compPlan,
